@@ -1225,6 +1225,14 @@ def store(
             return None
         else:
             stored_persisted = persist(*arrays, **kwargs)
+            if load_stored:
+                # the persisted blocks already are the stored data read back
+                # from the targets; there is no target left to index
+                return (
+                    stored_persisted[0]
+                    if len(stored_persisted) == 1
+                    else tuple(stored_persisted)
+                )
             arrays = []
             for s, r in zip(stored_persisted, regions_list):
                 slices = ArraySliceDep(s.chunks)
